@@ -223,6 +223,9 @@ _G_FAIL = dgen(NEPs="{1, 2}", GKinds='{"ok", "http", "http_big", "http_alt", "ht
                BootKinds='{"up", "sick"}')
 _G_FAIL_NATIVE = dgen(NEPs="{1, 2}", GKinds='{"http", "http_alt", "refuse", "reset_pre"}', Balancers='{"priority"}',
                       Routes='{"anthropic", "anthropic_stream"}', EpTypes='{"vllm"}')
+# translated routes whose backend dies after its response has started: no finished-looking message may come out
+_G_TRCUT = dict(dgen(GKinds='{"ok", "hdr_then_reset", "reset_after", "refuse"}', Balancers='{"round-robin"}', Framings='{"chunked"}',
+                     Routes='{"anthropic", "anthropic_stream"}'), always=True)
 # translator scope of the statistics (C19): translated and passthrough Anthropic routes over attempt outcomes
 _G_TRSTATS = dgen(GKinds='{"ok", "http", "refuse", "reset_pre", "reset_after"}', Balancers='{"round-robin"}',
                   Routes='{"anthropic", "anthropic_stream"}')
@@ -237,7 +240,7 @@ PROPS["C05"] = {
             "reset, backend 5xx) x route family (proxy, provider, Anthropic buffered, Anthropic streaming) x engine.",
     "exhaustive": False,
     "assumptions": ["'promptly' = the client has its answer within 3 s while every configured timeout is >= 10 s"],
-    "parts": [dpart([_G_FAIL, _G_FAIL_NATIVE, _G_ALLOPEN], [_G_FAIL, _G_FAIL_NATIVE, _G_SINGLE2, _G_ALLOPEN])],
+    "parts": [dpart([_G_FAIL, _G_FAIL_NATIVE, _G_ALLOPEN, _G_TRCUT], [_G_FAIL, _G_FAIL_NATIVE, _G_SINGLE2, _G_ALLOPEN, _G_TRCUT])],
 }
 PROPS["C05"]["parts"][0]["quick"]["sample"] = 900
 
